@@ -7,6 +7,7 @@ import NutilsVerif.Proofs.C06Expr
 import NutilsVerif.Proofs.C06Cons
 import NutilsVerif.Proofs.C06Agree
 import NutilsVerif.Proofs.C06Len
+import NutilsVerif.Proofs.C06Comm
 /-!
 # C06 — static array metadata is sound: property theorems
 
@@ -54,6 +55,20 @@ theorem intbounds_sound_AssertEqual {r1 r2 : Rng} {x : Int} (hx : Mem x r1) (hy 
 theorem intbounds_sound_Multiply {r1 r2 : Rng} (h1 : Valid r1) (h2 : Valid r2) {x y : Int} (hx : Mem x r1) (hy : Mem y r2) :
     ∃ r', bnd (tfMul r1 r2) = some r' ∧ Mem (x * y) r' :=
   bnd_intro ⟨_, rfl, mulRng_sound h1 h2 hx hy⟩
+
+/-- `Multiply.funcs` is a `frozenmultiset`: the range does not depend on which factor is iterated first. -/
+theorem intbounds_order_independent_Multiply {r1 r2 : Rng} (h1 : Valid r1) (h2 : Valid r2) : tfMul r2 r1 = tfMul r1 r2 := by
+  simp only [tfMul, mulRng_comm h1 h2]
+
+/-- `Add.funcs` is a `frozenmultiset` as well. -/
+theorem intbounds_order_independent_Add (r1 r2 : Rng) : tfAdd [r2, r1] = tfAdd [r1, r2] :=
+  tfAdd_comm r1 r2
+
+/-- `Add._terms` flattens nested `Add`s: summing the bounds of all leaf terms equals adding the bounds of the two operands, so the
+pairwise `bounds (.add a b)` of the expression language agrees with the flattened computation of the code. -/
+theorem intbounds_Add_flatten (rs1 rs2 : List Rng) (h1 : ∀ r ∈ rs1, Valid r) (h2 : ∀ r ∈ rs2, Valid r) (x y : Rng)
+    (hx : tfAdd rs1 = some x) (hy : tfAdd rs2 = some y) : tfAdd (rs1 ++ rs2) = tfAdd [x, y] :=
+  tfAdd_append rs1 rs2 h1 h2 x y hx hy
 
 /-- `Add` over any number of (flattened) terms. -/
 theorem intbounds_sound_Add {xs : List Int} {rs : List Rng} (h : MemAll xs rs) : ∃ r', bnd (tfAdd rs) = some r' ∧ Mem xs.sum r' :=
